@@ -17,7 +17,10 @@ import (
 	"encoding/json"
 	"fmt"
 	"math"
+	"os"
+	"os/exec"
 	"reflect"
+	"regexp"
 	"sort"
 	"strings"
 	"time"
@@ -403,7 +406,7 @@ func findingsFor(c caseT, fails []failure) []finding {
 	for _, f := range fails {
 		switch f.Mode {
 		case "panic":
-			add(c.Path+" "+f.Panic, "no-crash", f, c)
+			add(c.Path+" "+coarsePanic(f.Panic), "no-crash", f, c)
 			continue
 		case "stray":
 			add(c.Path+": unexpected outcome "+f.Panic, "no-crash", f, c)
@@ -464,6 +467,30 @@ func findingsFor(c caseT, fails []failure) []finding {
 		}
 	}
 	return out
+}
+
+var reCallUsing = regexp.MustCompile(`reflect:-Call-using-([^-@]+)-as-type-([^-@]+)`)
+
+// coarsePanic folds "Call using int64 as type time.Duration", "... main.NStr as type string", ...
+// (a value of another type of the same Kind handed to reflect.Call) into one class.
+func coarsePanic(p string) string {
+	m := reCallUsing.FindStringSubmatch(p)
+	if m == nil {
+		return p
+	}
+	var a, b *kindT
+	for i := range kinds {
+		if kinds[i].T.String() == m[1] {
+			a = &kinds[i]
+		}
+		if kinds[i].T.String() == m[2] {
+			b = &kinds[i]
+		}
+	}
+	if a != nil && b != nil && a != b && a.T.Kind() == b.T.Kind() {
+		return strings.Replace(p, m[0], "reflect:-Call-using-a-different-type-of-the-same-Kind(named/basic)", 1)
+	}
+	return p
 }
 
 func sigOnly(c caseT) string { return "(" + strings.Join(c.In, ",") + ")" + c.Out }
@@ -612,7 +639,7 @@ func worker(w *pool.W, raw json.RawMessage) {
 	}
 	switch sh.Path {
 	case "convert":
-		for _, k := range kinds {
+		for _, k := range kinds[:nBasic] {
 			c0 := caseT{Path: "convert", In: []string{k.Name}}
 			if !w.Item(c0.sigString()) {
 				continue
@@ -666,9 +693,155 @@ func worker(w *pool.W, raw json.RawMessage) {
 	w.Emit(rec{Kind: "count", Sigs: sigs, Calls: calls, Outcome: outcomes})
 }
 
+// ---- order-dependent behaviour: basic and named types of one Kind, both orders, fresh process ----
+//
+// A converter may keep process-wide state (a cache keyed by reflect.Kind, say). Whether a call of
+// f(time.Duration) works must not depend on f(int64) having been called before, or vice versa.
+// Each sequence below is executed in a freshly started child process (so the order is exactly the
+// listed one, whatever the worker did before) and every step is judged by the ordinary oracle.
+
+type seqStep struct {
+	Path string `json:"path"`
+	Kind string `json:"kind"`
+}
+
+type seqDef struct {
+	Name  string    `json:"name"`
+	Steps []seqStep `json:"steps"`
+}
+
+func sequences() []seqDef {
+	var basics, nameds []string
+	for i := nBasic; i < len(kinds); i++ {
+		nameds = append(nameds, kinds[i].Name)
+		basics = append(basics, basicOf(&kinds[i]).Name)
+	}
+	mk := func(name string, groups ...[2]any) seqDef {
+		d := seqDef{Name: name}
+		for _, g := range groups {
+			for _, k := range g[1].([]string) {
+				d.Steps = append(d.Steps, seqStep{g[0].(string), k})
+			}
+		}
+		return d
+	}
+	var out []seqDef
+	for _, p := range []string{"func", "method"} {
+		out = append(out, mk(p+": basic, named, basic", [2]any{p, basics}, [2]any{p, nameds}, [2]any{p, basics}))
+		out = append(out, mk(p+": named, basic, named", [2]any{p, nameds}, [2]any{p, basics}, [2]any{p, nameds}))
+	}
+	out = append(out, mk("func basic, method named, func basic", [2]any{"func", basics}, [2]any{"method", nameds}, [2]any{"func", basics}))
+	out = append(out, mk("method named, func basic, method named", [2]any{"method", nameds}, [2]any{"func", basics}, [2]any{"method", nameds}))
+	out = append(out, mk("method basic, func named, method basic", [2]any{"method", basics}, [2]any{"func", nameds}, [2]any{"method", basics}))
+	out = append(out, mk("func named, method basic, func named", [2]any{"func", nameds}, [2]any{"method", basics}, [2]any{"func", nameds}))
+	return out
+}
+
+func stepCases(st seqStep) []caseT {
+	k := kindByName(st.Kind)
+	var cs []caseT
+	for _, a := range nativePool(k) {
+		if expectParam(k, a).Class != expExact {
+			continue
+		}
+		cs = append(cs, caseT{Path: st.Path, In: []string{k.Name}, Out: k.Name, Args: []sval{a}, Res: resultPool(k)[0].C})
+		if len(cs) == 3 {
+			break
+		}
+	}
+	return cs
+}
+
+type seqOut struct {
+	Calls int       `json:"calls"`
+	F     []finding `json:"f"`
+}
+
+// seqChild runs in the fresh child process.
+func seqChild(spec string) {
+	var d seqDef
+	json.Unmarshal([]byte(spec), &d)
+	var out seqOut
+	seen := map[string]bool{}
+	for i, st := range d.Steps {
+		for _, c := range stepCases(st) {
+			fs, _ := evalCase(newHost(c), c)
+			out.Calls++
+			for _, f := range findingsFor(c, fs) {
+				if seen[f.Key] {
+					continue
+				}
+				seen[f.Key] = true
+				f.Detail = fmt.Sprintf("in a fresh process, sequence %q, step %d = %s(%s):\n%s", d.Name, i+1, st.Path, st.Kind, f.Detail)
+				f.Case.Seq = &d
+				f.Size = 1 + i // the sequence is the replayable form of an order-dependent failure
+				for si, sd := range sequences() {
+					if sd.Name == d.Name {
+						f.Size += 100 * si
+					}
+				}
+				out.F = append(out.F, f)
+			}
+		}
+	}
+	b, _ := json.Marshal(out)
+	fmt.Println("C17SEQ " + string(b))
+}
+
+func runSeqChild(d seqDef) (seqOut, error) {
+	exe, err := os.Executable()
+	if err != nil {
+		return seqOut{}, err
+	}
+	spec, _ := json.Marshal(d)
+	cmd := exec.Command(exe)
+	for _, e := range os.Environ() {
+		if !strings.HasPrefix(e, "VERIF_WORKER") {
+			cmd.Env = append(cmd.Env, e)
+		}
+	}
+	cmd.Env = append(cmd.Env, "C17_SEQ="+string(spec))
+	ob, err := cmd.Output()
+	var out seqOut
+	for _, l := range strings.Split(string(ob), "\n") {
+		if strings.HasPrefix(l, "C17SEQ ") {
+			if e := json.Unmarshal([]byte(l[7:]), &out); e != nil {
+				return out, e
+			}
+			return out, nil
+		}
+	}
+	stderr := ""
+	if ee, ok := err.(*exec.ExitError); ok {
+		stderr = string(ee.Stderr)
+	}
+	return out, fmt.Errorf("sequence child gave no result: %v %s", err, trunc(stderr, 600))
+}
+
+func seqWorker(w *pool.W, raw json.RawMessage) {
+	var d seqDef
+	json.Unmarshal(raw, &d)
+	if !w.Item("seq " + d.Name) {
+		return
+	}
+	out, err := runSeqChild(d)
+	if err != nil {
+		c := caseT{Path: "func", Seq: &d}
+		w.Emit(rec{Kind: "fail", F: &finding{Key: "sequence child died: " + runner.FatalFrame(err.Error()), Clause: "no-crash", Detail: err.Error(), Case: c}})
+	}
+	for i := range out.F {
+		w.Emit(rec{Kind: "fail", F: &out.F[i]})
+	}
+	w.Emit(rec{Kind: "count", Sigs: int64(len(d.Steps)), Calls: int64(out.Calls), Outcome: map[string]int{"sequence-step": out.Calls}})
+}
+
 func main() {
+	if s := os.Getenv("C17_SEQ"); s != "" {
+		seqChild(s)
+		return
+	}
 	if pool.IsWorker() {
-		pool.Serve(map[string]pool.Handler{"c17": worker})
+		pool.Serve(map[string]pool.Handler{"c17": worker, "seq": seqWorker})
 	}
 	c := ev.New("C17")
 	defer runner.Cleanup()
@@ -697,6 +870,10 @@ func main() {
 	add(shardArg{Path: "func", Arity: 0, NKinds: all})
 	add(shardArg{Path: "method"})
 	add(shardArg{Path: "convert"})
+	for _, d := range sequences() {
+		shards = append(shards, pool.Shard{Kind: "seq", Arg: d})
+	}
+	c.Set("order_sequences", len(sequences()))
 
 	var sigs, calls int64
 	outcomes := map[string]int{}
@@ -752,7 +929,7 @@ func main() {
 	if len(outcomes) < 4 || calls < 1000 {
 		c.HarnessError("vacuous: %d outcome classes over %d calls", len(outcomes), calls)
 	}
-	rule := fmt.Sprintf("every func signature of arity 0..2 over %d kinds and arity 3 over the first %d kinds x %d result kinds (incl. void), registered with RegisterFunction via reflect.MakeFunc; %d fixture methods via RegisterReflectClass; Convert/ConvertFromIndex[T] for %d kinds; each x (all-neutral + one boundary per position + all boundaries at once)", all, n3, all+1, 14*15+15+len(multiSigs), all)
+	rule := fmt.Sprintf("every func signature of arity 0..2 over %d kinds and arity 3 over the first %d kinds x %d result kinds (incl. void), registered with RegisterFunction via reflect.MakeFunc; %d fixture methods via RegisterReflectClass; Convert/ConvertFromIndex[T] for %d kinds; each x (all-neutral + one boundary per position + all boundaries at once)", all, n3, all+1, len(kinds)*(len(kinds)+1)+len(kinds)+1+len(multiSigs), nBasic)
 	c.Finish(sigs, calls, calls, rule)
 }
 
@@ -762,6 +939,16 @@ func replay(c *ev.Check) {
 	if err != nil {
 		fmt.Println("replay:", err)
 		c.HarnessError("replay: %v", err)
+		c.Finish(1, 1, 1, "replay")
+		return
+	}
+	if cs.Seq != nil {
+		out, err := runSeqChild(*cs.Seq)
+		fmt.Printf("sequence %q: %d calls, %d finding(s) %v\n", cs.Seq.Name, out.Calls, len(out.F), err)
+		for _, f := range out.F {
+			fmt.Printf("key=%s\n%s\n", f.Key, f.Detail)
+			c.Fail(f.Key, f.Clause, 0, cs, f.Detail)
+		}
 		c.Finish(1, 1, 1, "replay")
 		return
 	}
